@@ -266,7 +266,19 @@ def build_case(rng, cid, budget):
     b = Builder(rng, cid, budget)
     stmts, ops = b.block("t", 0, n=rng.range(1, 4))
     b.files["t"]["fns"].append("mixed run () { %s %s return 1; }" % (DECL, " ".join(stmts)))
+    como = rng.chance(1, 6)
+    if como:
+        # the evaluation is the real call_out() sweep: prep schedules two callbacks; an error in the first must not
+        # stop the second (resume point of call_out()), command_giver is the one the call_outs were scheduled with
+        b.files["t"]["fns"].append('void run2 () { VL ("say second"); }')
+        b.prep.append('remove_call_out ("run"); remove_call_out ("run2"); call_out ("run2", 0); call_out ("run", 0);')
+        b.kinds["callout"] = 1
     files = {name: b.source(name) for name in b.files}
+    if como:
+        c = case_from(cid, files, "(withcg u1 (safe 0 0 %s)) (withcg u1 (safe 0 0 (say second)))" % " ".join(ops),
+                      inject="injectco")
+        c.meta["kinds"] = b.kinds
+        return c
     reg = ""
     if rng.chance(1, 8):
         reg = " " + rng.choice(["co", "po"]) + " probe"
@@ -292,7 +304,7 @@ class C05(Prop):
     id = "C05"
     title = "after any LPC error the machine state is as before the failed call"
     lean_modules = ["NV.C05.Exec", "NV.C05.Props", "NV.C05.Witness"]
-    theorems = ["NV.C05.exec_keeps_extension", "NV.C05.top_restores", "NV.C05.catch_yields_message_exec",
+    theorems = ["NV.C05.model_satisfies_spec", "NV.C05.exec_keeps_extension", "NV.C05.top_restores", "NV.C05.catch_yields_message_exec",
                 "NV.C05.guards_reset_first_level", "NV.C05.exec_good", "NV.C05.execCore_good", "NV.C05.raise_rspec",
                 "NV.C05.runHandler_spec",
                 "NV.C05.restore_is_inverse", "NV.C05.handlers_run_exactly_once", "NV.C05.handler_not_run_on_normal_exit",
